@@ -341,3 +341,128 @@ Proof.
   apply existsb_exists in K. destruct K as (v & Iv & Kv).
   destruct (reader (su_read v)) as [f|] eqn:R; [|discriminate]. exists v, f. split; [exact Iv|exact R].
 Qed.
+
+(* ============================================================================================== *)
+(* Third extension: the clone clause as theorems about the CLONE table regenerated from the source on every run
+   (LNGen.Src_c19_clones, written by tools/checks/c19_clones.py: every class that overrides clone() with its return
+   expression classified, every class of those hierarchies with its bases, data members and copy constructor), and a
+   semantic model on top of it (C19_ClonesDefs: object = class + parameter state + owned components; `oclone` = virtual
+   clone() as the table classifies it).  Stage CLONETAB ties the table and `oclone` to the compiled library. *)
+From Coq Require Import String.
+From LNGen Require Import Src_c19_clones.
+From LN Require Import C19_ClonesDefs C19_Clones.
+
+(* every clone() of src/ and include/ returns std::make_unique<T>( *this ) with T its own class (as written in the
+   definition, or the injected class name) *)
+Theorem C19_clones_copy_this : forall r, In r src_c19_clones ->
+  exists t, sc_ret r = CopyOfThis t /\ (t = sc_class r \/ t = sc_key r).
+Proof. exact clones_copy_this. Qed.
+Print Assumptions C19_clones_copy_this.
+
+(* every user-written copy constructor of those hierarchies has an empty body, passes `other` to every base class, copies
+   or deep-clones every data member of its class (owning pointers: deep-cloned), and has no other initialiser *)
+Theorem C19_copy_ctors_complete : forall c file line inits be,
+  In c src_c19_classes -> cl_copy c = UserCopy file line inits be ->
+  be = true /\
+  (forall b, In b (cl_bases c) -> In (IBase b true) inits) /\
+  (forall m, In m (cl_members c) -> In (ICopied (sm_name m)) inits \/ In (IDeepCloned (sm_name m)) inits) /\
+  (forall m, In m (cl_members c) -> owning (sm_kind m) = true -> In (IDeepCloned (sm_name m)) inits) /\
+  (forall i, In i inits -> (forall m t, i <> IOther m t) /\ (forall b, i <> IBase b false)).
+Proof. exact copy_ctors_complete. Qed.
+Print Assumptions C19_copy_ctors_complete.
+
+(* adequacy of the value model of copies: no class of the hierarchies has a deleted copy constructor or a member through
+   which a member-wise copy would alias mutable state (raw pointer / reference to non-const, shared_ptr); classes without
+   a user-written copy constructor have no owning pointer (their implicit copy is well-formed and deep) *)
+Theorem C19_copies_no_aliasing : forall c, In c src_c19_classes ->
+  cl_copy c <> DeletedCopy /\
+  (forall m, In m (cl_members c) -> aliasing (sm_kind m) = false) /\
+  ((cl_copy c = ImplicitCopy \/ cl_copy c = DefaultedCopy) -> forall m, In m (cl_members c) -> owning (sm_kind m) = false).
+Proof. exact copies_no_aliasing. Qed.
+Print Assumptions C19_copies_no_aliasing.
+
+(* the clone clause on objects WITH owned components (extends C19_clone_equal_independent, which speaks about parameter
+   lists): for the table of the run, in every state -- (1) the clone of any object over the table is the object itself
+   (class, parameter state, owned components recursively, e.g. the two line-search objects of a solver, the prototype /
+   weak-learner lists of gboost_model_t); (2) every history of assignments (to parameters of the object or of any nested
+   component) and clones is defined and a clone taken in the reached state appends an equal object and leaves the others
+   untouched; (3) operations on other objects never change object j *)
+Theorem C19_clone_object_equal_independent :
+  (forall o, src_shaped o = true -> src_oclone o = Some o) /\
+  (forall h st, Forall (fun o => src_shaped o = true) st ->
+     exists st', orun src_c19_clones src_c19_classes default_obj st h = Some st' /\ Forall (fun o => src_shaped o = true) st' /\
+       forall i o, nth_error st' i = Some o ->
+         ostep src_c19_clones src_c19_classes default_obj st' (OClone i) = Some (st' ++ [o]) /\
+         nth_error (st' ++ [o]) (List.length st') = Some o /\
+         forall j, (j < List.length st')%nat -> nth_error (st' ++ [o]) j = nth_error st' j) /\
+  (forall h st st' j, (j < List.length st)%nat -> forallb (fun op => negb (otargets op j)) h = true ->
+     orun src_c19_clones src_c19_classes default_obj st h = Some st' -> nth_error st' j = nth_error st j).
+Proof. exact clone_equal_independent. Qed.
+Print Assumptions C19_clone_object_equal_independent.
+
+(* the same for ANY table: clone() = CopyOfThis of the own class, `other` handed down to configurable_t along the class
+   chain, every owning member deep-cloned  =>  clone is the identity on objects (all states, all component trees) *)
+Theorem C19_clone_equal_generic : forall clones classes fresh,
+  (forall r, In r clones -> class_clone_ok clones classes (sc_key r) = true) ->
+  forall o, shaped clones classes o = true -> oclone clones classes fresh o = Some o.
+Proof. exact clone_equal_generic. Qed.
+Print Assumptions C19_clone_equal_generic.
+
+(* ... and the hypotheses are needed: with `DefaultConstructed` the statement is refuted by "change a parameter, clone";
+   a copy constructor that forgets an owning member loses the state of that component; one that does not pass `other` to
+   its configurable_t base loses every parameter *)
+Theorem C19_clone_default_constructed_refuted :
+  exists o o', o = oset (demo_obj 5 5) [] [97] (AInt 7) /\
+    shaped (demo_clones (DefaultConstructed "S"%string)) (demo_classes demo_copy_good) o = true /\
+    oclone (demo_clones (DefaultConstructed "S"%string)) (demo_classes demo_copy_good) demo_fresh o = Some o' /\
+    obj_cfg o' <> obj_cfg o.
+Proof. exact default_constructed_refuted. Qed.
+Print Assumptions C19_clone_default_constructed_refuted.
+
+Theorem C19_clone_forgotten_member_refuted :
+  exists o o', o = oset (demo_obj 5 5) [0%nat] [97] (AInt 7) /\
+    shaped (demo_clones (CopyOfThis "S"%string)) (demo_classes demo_copy_forgets) o = true /\
+    oclone (demo_clones (CopyOfThis "S"%string)) (demo_classes demo_copy_forgets) demo_fresh o = Some o' /\
+    obj_cfg o' = obj_cfg o /\ obj_comps o' <> obj_comps o.
+Proof. exact forgotten_member_refuted. Qed.
+Print Assumptions C19_clone_forgotten_member_refuted.
+
+Theorem C19_clone_base_not_passed_refuted :
+  exists o', oclone (demo_clones (CopyOfThis "S"%string)) (demo_classes demo_copy_nobase) demo_fresh (demo_obj 7 8) = Some o' /\
+    obj_cfg o' = [] /\ obj_comps o' = obj_comps (demo_obj 7 8).
+Proof. exact base_not_passed_refuted. Qed.
+Print Assumptions C19_clone_base_not_passed_refuted.
+
+(* non-vacuity *)
+Example C19_clones_nonvacuous_tables :
+  (100 <= List.length src_c19_clones)%nat /\ (100 <= List.length src_c19_classes)%nat /\
+  existsb (fun c => match cl_copy c with UserCopy _ _ _ _ => true | _ => false end) src_c19_classes = true /\
+  existsb (fun c => existsb (fun m => owning (sm_kind m)) (cl_members c)) src_c19_classes = true.
+Proof. exact clone_table_sizes. Qed.
+
+Example C19_clones_nonvacuous_demo :
+  (forall r, In r (demo_clones (CopyOfThis "S"%string)) ->
+     class_clone_ok (demo_clones (CopyOfThis "S"%string)) (demo_classes demo_copy_good) (sc_key r) = true) /\
+  shaped (demo_clones (CopyOfThis "S"%string)) (demo_classes demo_copy_good) (demo_obj 7 8) = true /\
+  oclone (demo_clones (CopyOfThis "S"%string)) (demo_classes demo_copy_good) demo_fresh (demo_obj 7 8) = Some (demo_obj 7 8).
+Proof. exact demo_good. Qed.
+
+Example C19_clones_nonvacuous_rejects :
+  oclone (demo_clones (CopyOfThis "L"%string)) (demo_classes demo_copy_good) demo_fresh (demo_obj 7 8) = None /\
+  clone_copy_this (mkSClone "demo.cpp"%string 1 "S"%string "S"%string false (CopyOfThis "L"%string)) = false /\
+  clone_copy_this (mkSClone "demo.cpp"%string 1 "S"%string "S"%string false (DefaultConstructed "S"%string)) = false /\
+  clone_copy_this (mkSClone "demo.cpp"%string 1 "S<a, b>"%string "S"%string false (CopyOfThis "S<a, c>"%string)) = false /\
+  clone_copy_this (mkSClone "demo.cpp"%string 1 "S<a, b>"%string "S"%string true (CopyOfThis "S"%string)) = true /\
+  copy_ctor_complete (mkSClass "S"%string "demo.h"%string 1 ["B"%string] [mkSMember "m_l"%string "rl_t"%string MUniquePtr "L"%string] demo_copy_forgets) = false /\
+  copy_ctor_complete (mkSClass "S"%string "demo.h"%string 1 ["configurable_t"%string] [mkSMember "m_l"%string "rl_t"%string MUniquePtr "L"%string; mkSMember "m_type"%string "int"%string MValue ""%string] demo_copy_nobase) = false /\
+  copy_ctor_complete (mkSClass "S"%string "demo.h"%string 1 ["configurable_t"%string] [mkSMember "m_l"%string "rl_t"%string MUniquePtr "L"%string; mkSMember "m_type"%string "int"%string MValue ""%string] demo_copy_good) = true /\
+  implicit_copy_memberwise (mkSClass "S"%string "demo.h"%string 1 [] [mkSMember "m_p"%string "x_t*"%string MRawPtr ""%string] ImplicitCopy) = false /\
+  implicit_copy_memberwise (mkSClass "S"%string "demo.h"%string 1 [] [mkSMember "m_p"%string "rl_t"%string MUniquePtr "L"%string] ImplicitCopy) = false.
+Proof. vm_compute. repeat split; reflexivity. Qed.
+
+(* an object over the table of the run with owned components: a solver with its two line-search objects *)
+Example C19_clones_nonvacuous_shaped :
+  src_shaped (Obj "solver_gd_t"%string [] [("m_lsearch0"%string, Obj "lsearch0_quadratic_t"%string [] []);
+                                    ("m_lsearchk"%string, Obj "lsearchk_backtrack_t"%string [] [])]) = true /\
+  src_shaped (Obj "solver_gd_t"%string [] [("m_nothing"%string, Obj "lsearch0_quadratic_t"%string [] [])]) = false.
+Proof. vm_compute. split; reflexivity. Qed.
